@@ -537,6 +537,17 @@ func (f *followingQuery) Select(t iterator) NodeNavigator {
 				}
 			} else {
 				var q *descendantQuery // descendant query
+				if node.NodeType() == AttributeNode {
+					// An attribute is followed by the content of its parent element.
+					if node.MoveToParent(); node.MoveToChild() {
+						q = &descendantQuery{
+							Self:      true,
+							Input:     &contextQuery{},
+							Predicate: f.Predicate,
+						}
+						t.Current().MoveTo(node)
+					}
+				}
 				f.iterator = func() NodeNavigator {
 					for {
 						if q == nil {
